@@ -52,12 +52,20 @@ func mirrorIPFIXDispatcher(ch chan IPFIXUDPMsg) {
 	ipfixMirrorEnabled = true
 	logger.Printf("ipfix mirror service is running (workers#: %d) ...", opts.IPFIXMirrorWorkers)
 
+	// the workers all serve the address family of the mirror target
+	ipv4 := net.ParseIP(opts.IPFIXMirrorAddr).To4() != nil
+
 	for {
 		msg = <-ch
-		if msg.raddr.IP.To4() != nil {
+		switch {
+		case ipv4 && msg.raddr.IP.To4() != nil:
 			ch4 <- msg
-		} else {
+		case !ipv4 && msg.raddr.IP.To4() == nil:
 			ch6 <- msg
+		default:
+			// an exporter of the other family: its address cannot be the source of
+			// a packet to this target, and nobody reads the other channel
+			ipfixBuffer.Put(msg.body[:opts.IPFIXUDPSize])
 		}
 	}
 }
